@@ -183,6 +183,10 @@ def _dynamic_one(ctx, tid0, desc, net, k, rng, solver, method, flags):
     wd = ctx.sub(f"rwd_{k}_{solver}")
     pr = subprocess.run([str(exe), str(f), str(wd)], capture_output=True, text=True, timeout=300)
     if pr.returncode != 0:
+        if "runtime error: index" in pr.stderr:
+            ctx.violation(f"C16|OutOfBounds|{solver}", f"the generated renormalisation code ({solver}) indexes an array outside its declared size: "
+                          + pr.stderr.strip().splitlines()[0][:300], {"desc": desc, "stderr": pr.stderr[-1500:]})
+            return []
         raise MachineryError(f"renorm driver failed: {pr.stderr[-500:]}")
     rows: dict = {}
     for line in pr.stdout.splitlines():
